@@ -1,6 +1,6 @@
 (* C09 — property theorems only.  Each is closed by `exact` of a lemma of C09_Proofs*.v. *)
 From Coq Require Import List NArith ZArith Bool.
-From Dae Require Import C09_Spec C09_Model C09_Check C09_ProofsF C09_ProofsP C09_Proofs C09_ProofsC C09_ProofsW.
+From Dae Require Import C09_Spec C09_Model C09_Check C09_ProofsF C09_ProofsP C09_Proofs C09_ProofsC C09_ProofsW C09_ProofsK.
 Import ListNotations.
 Open Scope N_scope.
 
@@ -124,6 +124,33 @@ Theorem C09_forwarder_lifecycle :
   forall evs, fwd_ok (fwd_obs_of (frun evs)) = true.
 Proof. exact C09_forwarder_lifecycle_proof. Qed.
 Print Assumptions C09_forwarder_lifecycle.
+
+(* ---- the forwarder cache (key -> cachedDnsForwarder) ------------------------------------------ *)
+
+(* For every schedule of any number of queries (Load / create / LoadOrStore / beginUse / ForwardDNS that
+   succeeds or fails / endUse / retire-by-key = CompareAndDelete + retire), reloads (retireAll) and
+   closeAll: the cache never holds a retired or closed entry; no instance is closed by endUse/retire while
+   a query is inside it; at quiescence every instance ever created is closed except the one still cached,
+   and closeAll then closes that one: every instance ever created is closed (sync.Once: exactly once)
+   and the cache is empty.  (Entry methods are atomic here; their interleavings are C09_forwarder_lifecycle.
+   closeAll itself closes whatever is cached even with queries in flight: that is shutdown.) *)
+Theorem C09_forwarder_cache_no_leak :
+  forall evs,
+    let s := krun true evs in
+    (forall e, k_cache s = Some e -> exists en, nth_error (k_ents s) e = Some en /\ fe_retired en = false /\ fe_closed en = false) /\
+    k_bad s = false /\
+    (k_quiescent s = true -> forall e en, nth_error (k_ents s) e = Some en -> fe_closed en = true \/ k_cache s = Some e) /\
+    (k_quiescent s = true -> all_closed (kstep true s KCloseAll) = true /\ k_cache (kstep true s KCloseAll) = None).
+Proof. exact C09_forwarder_cache_no_leak_proof. Qed.
+Print Assumptions C09_forwarder_cache_no_leak.
+
+(* The variant whose retire-by-key deletes the slot unconditionally is refutable: the failing query's
+   delete evicts the healthy replacement, which is then never retired and never closed. *)
+Theorem C09_forwarder_cache_unconditional_delete_refuted :
+  exists evs, let s := krun false evs in
+    k_quiescent s = true /\ all_closed (kstep false s KCloseAll) = false.
+Proof. exact C09_forwarder_cache_unconditional_delete_refuted_proof. Qed.
+Print Assumptions C09_forwarder_cache_unconditional_delete_refuted.
 
 (* ---- pipelined TCP/TLS connection ------------------------------------------------------------ *)
 
